@@ -151,3 +151,23 @@ for pid in ("C04", "C05", "C16"):
 PROPS["C05"]["jobs"] = [chain_job("C05"), esc_job("C05")]
 PROPS["C01"]["jobs"] = PROPS["C01"]["jobs"] + [chain_job("C01")]
 PROPS["C03"]["jobs"] = PROPS["C03"]["jobs"] + [chain_job("C03")]
+
+def c06_keys(pkg, f, hs, ths=None):
+    return {"pkg": pkg, "files": ["harness/C06/" + f], "quick": hs, "thorough": ths or hs, "opts": {"timeout": 30000}}
+PROPS["C06"] = {
+    "jobs": [
+        {"pkg": "zzverif/c06", "pkgname": "zzc06", "files": ["harness/C06/signers.go"], "quick": ["Harness_C06_signers"], "opts": {"timeout": 20000}},
+        c06_keys("x/market/keeper", "keys_market.go", ["Harness_C06_market_keys"]),
+        c06_keys("x/deployment/keeper", "keys_deployment.go", ["Harness_C06_deployment_keys"]),
+        c06_keys("x/escrow/keeper", "keys_escrow.go", ["Harness_C06_escrow_keys_%s" % s for s in ("11", "12", "21", "22", "13")],
+                 ["Harness_C06_escrow_keys_%s" % s for s in ("11", "12", "21", "22", "13", "23", "33", "35", "55")]),
+        c06_keys("x/audit/keeper", "keys_audit.go", ["Harness_C06_audit_keys"]),
+        c06_keys("x/cert/keeper", "keys_cert.go", ["Harness_C06_cert_keys"]),
+        chain_job("C06"), esc_job("C06"),
+    ],
+    "bounds": {"quick": "signers: all 19 message types with arbitrary 20-byte addresses and sequence numbers; key separation: arbitrary 20-byte owner/provider/auditor addresses, arbitrary uint64/uint32 sequence numbers (bit-vectors through the real encoding/binary code), escrow ids with decimal renderings of 1..3 digits (thorough 1..5), certificate serials < 2^24; frame and only-the-signer-pays clauses on the chain step (12 handlers) and escrow step",
+               "thorough": "decimal renderings up to 5 digits; chain step also on the 2x1 universe"},
+    "stubs": CHAIN_STUBS,
+    "outside_claim": ["signature verification itself (SDK ante handler)", "addresses of length other than 20 bytes", "owner strings of different lengths (bech32 of 20 bytes has fixed length)"],
+    "assumptions": CHAIN_ASSUME,
+}
